@@ -74,6 +74,22 @@ CHECKS = {
              'little-endian canonical encoding, tail bytes, red zones and returned pointer.',
         note='Known finding D23 (part end aligned to its own alignment) matched by schema shape. The bit-twiddling of prophy::swap(uint32_t*/uint64_t*) is tied by correspondence only (no T1 table).',
         technique='Lean 4 proof over an executable model of generated code + differential correspondence with compiled C++', ref='5/C09'),
+    'C10': dict(
+        text='Lean 4 theorems about the executable reference model of the message API (Api.lean: scalar/enum/bytes checks, optional set and '
+             'clear, discriminator switch, every array operation with Python index and slice normalisation, limits incl. the sizer range): a '
+             'rejected operation leaves the state unchanged, index / slice normalisation stays inside the list, append never exceeds the '
+             'limit, one outcome per operation. The implementation is compared with the model after EVERY operation of random histories '
+             '(exception class and complete state by attribute reads); the property oracle (allowed exception classes, no change on '
+             'rejection, state well typed by Lean `hasType`, encodable unless shared-sizer lengths differ) is evaluated on the real objects.',
+        note='Floating-point fields are outside the API model. Known finding D33 (TypeError pinned by the repository tests) matched by signature. The invariant `hasType` for every reachable model state is checked per run (Lean-evaluated), its inductive proof is a stated target.',
+        technique='Lean 4 proof over an executable reference model + step-by-step differential correspondence', ref='5/C10'),
+    'C11': dict(
+        text='Lean 4 theorems (mutual structural induction over values, any nesting): the model of copy_from / set_field / extend yields a '
+             'value equal to the source and shares no mutable object with it. The model is tied to the code by comparing copied state and '
+             'the real aliasing graph (identities of all reachable messages, field dicts, arrays and lists); the property (equal values and '
+             'encodings, source unchanged, later mutations of either side invisible to the other, same for extend()) is evaluated on real objects.',
+        note='The model abstracts object identity to a sharing flag; actual identities are observed by the harness.',
+        technique='Lean 4 proof (mutual structural induction) + differential correspondence incl. aliasing graph', ref='5/C11'),
     'C14': dict(
         text='Lean 4 theorems over tables regenerated from the sources on every run (the yacc precedence tables of the prophy parser '
              'and of calc are equal and are exactly the levels of the model parser; every binop action applies the integer operator, '
